@@ -45,6 +45,12 @@ CHECKS = {
   text="Relates two executions of the real state machine for every generated (config, history): whenever can_block_update_idle_waiting says the loop may sleep, the blocking run jumps to the next input event without ticking while the reference run keeps ticking; all OS-observable output (key/button state transitions, unicode, mouse, scroll, raw codes) must agree event for event and millisecond for millisecond, including what a further tick would still emit after the last event.",
   note="Virtual clock: the nanosecond remainder carry of handle_time_ticks and real thread scheduling are not exercised (DESIGN.md §8). Two events in the same millisecond are excluded by construction (inherent +-1 tick jitter of the real loop). Four is_idle defects found by this check were repaired with fix: commits."),
 
+ "C08": dict(
+  cat="exploration", ref="DESIGN.md §4 C08, Appendix A.5",
+  technique="generated macro bodies (grammar-based, each macro with its own key alphabet) x generated press/release histories; the harness expands every body itself and parses the OS output per activation against that expansion (complete runs, or prefix + clean-up where cancellation is possible), with timing lower bounds and cancellation invariants; proptest shrinking",
+  text="For 1-6 macro keys in all variants the OS transitions on each macro's private keys are segmented by activation and must be complete repetitions of the harness's own expansion of the body (press/release order, modifier groups, nested lists; set semantics for keys pressed twice), each step at least 1 ms after the previous one and not earlier than the stated delays; nothing before the trigger, nothing down at the end; in configs without cancel variants every activation of a plain / repeating macro completes regardless of other keys typed; a repeating macro starts no round after its release was processed; no macro press after a release-cancel or cancel-on-press trigger took effect.",
+  note="Times are lower bounds (the statement says 'at least'). Cancel variants cancel every running macro (documented), so completeness is only demanded in configs without them. With more than 4 macros running at once (documented limit) only 'nothing before the trigger, nothing left down' is demanded. Re-activating a macro while a copy may still run is skipped. F38 (cancel window overwritten) was found here and repaired."),
+
  "C10": dict(
   cat="translation_validation", ref="DESIGN.md §4 C10",
   technique="translation validation by generated programs: boolean expression ASTs are printed into switch conditions, compiled by the real parser and run by the real evaluator on generated environments, and compared with a reference evaluation of the written expression; exhaustive over all small expression shapes x truth assignments, proptest-generated beyond",
